@@ -225,6 +225,26 @@ def r17d(ctx):
     repo = ctx.repo
     ctx.rule("R17d", "strip loops delete only items they tested empty, from the end, stopping at the first non-empty item", floor=3)
     specs = [("Row.rstrip", "delete"), ("Table.rstrip", "delete"), ("Table._optimize_width_trim_rows", "delete")]
+    # shrinking the repeat count of a stored row / cell removes logical rows / cells just as a delete does: it needs the same evidence
+    for q, _ in specs:
+        f = repo.func(q)
+        for c in walk_no_nested(f.node):
+            if not (isinstance(c, ast.Call) and call_name(c) == "_set_repeated" and isinstance(c.func, ast.Attribute) and isinstance(c.func.value, (ast.Name, ast.Subscript)) and c.args):
+                continue
+            item = c.func.value.id if isinstance(c.func.value, ast.Name) else norm(c.func.value, 40)
+            src = canon(f, c.func.value)
+            if not any(k in src for k in ("_get_rows()", "_get_cells()")):
+                continue
+            arg = c.args[0]
+            if not (isinstance(arg, ast.Constant) and arg.value is None):
+                continue  # a computed count is the business of the run arithmetic (C01)
+            gs = structural_guards(c, stop=f.node)
+            tested = any(pol and isinstance(x, ast.Call) and call_name(x) == "is_empty" and isinstance(x.func, ast.Attribute) and norm(x.func.value, 40) == item for t, pol in gs for x in ast.walk(t))
+            ctx.instance("R17d", f"{f.file}:{f.ident}", f"{norm(c, 40)} (all repetitions but one dropped): " + ("only when the item is empty" if tested else "NO emptiness evidence"),
+                         ok=tested, nontrivial=True, line=c.lineno)
+            if not tested:
+                ctx.report("R17d", f, c, c, f"{q} reduces `{item}` ({src}) to a single occurrence without having established that it is empty: when the last row holds content "
+                           f"and is repeated N times, N-1 rows of content disappear")
     for q, _ in specs:
         f = repo.func(q)
         dels = [n for n in walk_no_nested(f.node) if isinstance(n, ast.Call) and call_name(n) == "delete" and enclosing_loops(n)]
@@ -268,27 +288,6 @@ def r17d(ctx):
             if not ok:
                 ctx.report("R17d", f, d, d, f"{q} deletes {item} without having established that it is empty (reversed scan={rev}, stops at first non-empty={stops}, {how}): "
                            f"non-empty content can be stripped")
-    # shrinking the repeat count of a stored row / cell removes logical rows / cells just as a delete does: it needs the same evidence
-    for q, _ in specs:
-        f = repo.func(q)
-        for c in walk_no_nested(f.node):
-            if not (isinstance(c, ast.Call) and call_name(c) == "_set_repeated" and isinstance(c.func, ast.Attribute) and isinstance(c.func.value, ast.Name) and c.args):
-                continue
-            item = c.func.value.id
-            src = canon(f, c.func.value)
-            if not any(k in src for k in ("_get_rows()", "_get_cells()")):
-                continue
-            arg = c.args[0]
-            if not (isinstance(arg, ast.Constant) and arg.value is None):
-                continue  # a computed count is the business of the run arithmetic (C01)
-            gs = structural_guards(c, stop=f.node)
-            tested = any(pol and isinstance(x, ast.Call) and call_name(x) == "is_empty" and isinstance(x.func, ast.Attribute) and isinstance(x.func.value, ast.Name)
-                         and x.func.value.id == item for t, pol in gs for x in ast.walk(t))
-            ctx.instance("R17d", f"{f.file}:{f.ident}", f"{norm(c, 40)} (all repetitions but one dropped): " + ("only when the item is empty" if tested else "NO emptiness evidence"),
-                         ok=tested, nontrivial=True, line=c.lineno)
-            if not tested:
-                ctx.report("R17d", f, c, c, f"{q} reduces `{item}` ({src}) to a single occurrence without having established that it is empty: when the last row holds content "
-                           f"and is repeated N times, N-1 rows of content disappear")
     if ctx.rules["R17d"].instances < 3:
         raise AnalysisError("R17d: strip loops not found")
 
@@ -503,6 +502,10 @@ def run(ctx):
     # (the one-row-only obligation R01a of C01 is a necessary condition here too)
     from .c01 import r01a
     r01a(ctx, tom)
+    # del_span, set_span and transpose(coord) read their area through the ranged traversals and write the cells back: a cell copy that still carries the
+    # repeat count of the run it was cut from overwrites its neighbours (run arithmetic of the expanding traversals, shared with C08)
+    from .c08 import r08c
+    r08c(ctx)
 
 
 from ..selftest import Seed, unparse_seed  # noqa: E402
